@@ -1,16 +1,16 @@
 SPECIFICATION Spec
 CONSTANTS
-  Sims = {"s1", "s2"}
+  Sims = {"s1"}
   Meshes = {"A", "B"}
   Folders = {"", "f1"}
   MaxVer = 1
   MaxSolve = 1
   MaxIter = 1
   MaxMesh = 2
-  Defect = "none"
+  Defect = "move_keeps_simcache"
   CacheOn = TRUE
   StoreOn = TRUE
-  Acts <- TwoActs
+  Acts <- AllActs
   Emit = FALSE
 VIEW view
 INVARIANT TypeOK
